@@ -25,13 +25,17 @@ RULE = ("K-inject: every (axis, direction) of UniformPlaneSource (thorough: also
         "periodic column, faces none along the axis, 6..10 steps of forward() vs the Lean `line` op for both "
         "polarisation pairs. Oracle (property scenario, thresholds as stated): 3x3 periodic cross-section, 10-cell PML "
         "along the axis, homogeneous background out of (eps_r, mu_r) = (1,1), (2.25,1), (1.5,2), (1,1.5), (3,1.5) (quick: one "
-        "dielectric/vacuum, one MAGNETIC background and one source with a delayed-start OnOffSwitch (start_after_periods=3)), >= 15 cells per wavelength in the medium, diagonal polarisation declared through fixed_E_ or fixed_H_polarization_vector "
+        "dielectric/vacuum, one MAGNETIC background, one source with a delayed-start OnOffSwitch (start_after_periods=3), one "
+        "scene with dispersive (ADE) arrays allocated — Lorentz background the source sits in, or a dispersive slab elsewhere — "
+        "where the stored H-side profile is also compared with the E-side profile); every source carries a non-zero "
+        "WaveCharacter.phase_shift (+-pi/2, pi, random of both signs), >= 15 cells per wavelength in the medium, diagonal polarisation declared through fixed_E_ or fixed_H_polarization_vector "
         "(equal rates), PoyntingFluxDetector planes behind and in "
         "front, CW and pulse: time-integrated backward/forward power < 1e-3; quick: 2 of the 6 direction cases from the "
         "seed; thorough: all six x {CW, pulse} and GaussianPlaneSource (CW, radius 0.3..0.8 wavelengths, open space: PML on all faces, planes 10 cells away) < 10 %. "
         "non-trivial = every case (source on, non-zero increments).")
 
 C0 = 299792458.0
+LORENTZ_RATIO, LORENTZ_DELTA = 2.5, 1.0      # pole at 2.5 x carrier, delta_epsilon 1: eps(carrier) = eps_inf + 1/(1 - 1/2.5^2)
 
 
 # ------------------------------------------------------------------------------------------ scene for K-inject
@@ -60,6 +64,7 @@ def gen_inject(rng, axis, direction, thorough, kind="uniform"):
     c["complex"] = rng.chance(0.15)
     c["radius_cells"] = rng.uniform(2.2, 3.4)
     c["seed"] = rng.np_seed()
+    c["phase"] = gen_phase(rng)
     # non-default OnOffSwitch: update_E/update_H then go through adjust_time_step_by_on_off (and `+ 0.5` for H)
     c["switch"] = rng.choice(["default", "delayed", "interval2"])
     if c["switch"] == "delayed":
@@ -68,6 +73,11 @@ def gen_inject(rng, axis, direction, thorough, kind="uniform"):
     elif c["switch"] == "interval2":
         c["steps"] = sorted({2 * (x // 2) for x in c["steps"]} | {2 * rng.randint(1, 12)})[:3 if thorough else 2]
     return c
+
+
+def gen_phase(rng):
+    """carrier phase of the WaveCharacter: never 0; the quadrature / inverted cases +-pi/2, pi are over-represented"""
+    return float(rng.choice([np.pi / 2, -np.pi / 2, np.pi, rng.uniform(0.3, 2.8), -rng.uniform(0.3, 2.8)]))
 
 
 def on_index(c, t):
@@ -106,12 +116,32 @@ def build_plane_scene(c, time_steps=30, detectors=None, pml=2, spacing=50e-9, wa
 
     def extra(vol):
         objs, cons = [], []
-        if c["eps_r"] != 1.0 or c["mu_r"] != 1.0:
-            bg = f.UniformMaterialObject(partial_grid_shape=tuple(c["shape"]), name="bg",
-                                         material=f.Material(permittivity=c["eps_r"], permeability=c["mu_r"]))
+        disp = c.get("dispersive")
+
+        def lorentz(delta):
+            """single Lorentz pole far above the carrier (weakly dispersive in band): allocates the ADE arrays, so the plane
+            source takes its precomputed `_temporal_H_filter` path"""
+            omega = 2.0 * np.pi * C0 / wavelength
+            return f.DispersionModel(poles=(f.LorentzPole(resonance_frequency=LORENTZ_RATIO * omega, damping=1e12,
+                                                          delta_epsilon=delta),))
+        if c["eps_r"] != 1.0 or c["mu_r"] != 1.0 or disp == "background":
+            mk = dict(permittivity=c["eps_r"], permeability=c["mu_r"])
+            if disp == "background":
+                mk["dispersion"] = lorentz(LORENTZ_DELTA)
+            bg = f.UniformMaterialObject(partial_grid_shape=tuple(c["shape"]), name="bg", material=f.Material(**mk))
             objs.append(bg)
             cons.append(bg.place_at_center(vol))
-        wave = f.WaveCharacter(wavelength=wavelength)
+        if disp == "elsewhere":
+            # a (nearly transparent) dispersive slab away from the source: the source sits in non-dispersive cells, but the
+            # simulation has dispersive arrays
+            shp0 = [None, None, None]
+            shp0[ax] = 2
+            slab = f.UniformMaterialObject(partial_grid_shape=tuple(shp0), name="slab",
+                                           material=f.Material(permittivity=c["eps_r"], permeability=c["mu_r"],
+                                                               dispersion=lorentz(1e-3)))
+            objs.append(slab)
+            cons.append(slab.set_grid_coordinates(axes=ax, sides="-", coordinates=c["slab_pos"]))
+        wave = f.WaveCharacter(wavelength=wavelength, phase_shift=float(c.get("phase", 0.0)))
         prof = f.SingleFrequencyProfile() if c["profile"] == "cw" else f.GaussianPulseProfile(
             spectral_width=f.WaveCharacter(wavelength=c.get("pulse_width_factor", 3) * wavelength), center_wave=wave)
         shp = [None, None, None]
@@ -216,7 +246,7 @@ def amplitudes(sc, c, t, off):
     s = sc.source
     dt = float(sc.config.time_step_duration)
     v = s.temporal_profile.get_amplitude(time=(float(t) + jnp.asarray(off)) * dt,
-                                         period=s.wave_character.get_period(), phase_shift=s.wave_character.phase_shift)
+                                         period=s.wave_character.get_period(), phase_shift=float(c.get("phase", 0.0)))
     return np.asarray(v, dtype=np.float64) * c["amp"]
 
 
@@ -352,7 +382,8 @@ def gen_line(rng, axis, direction):
             "widths": None if rng.chance(0.6) else [[50e-9 * rng.uniform(0.7, 1.5) for _ in range(m)] if i == axis else [50e-9] * m
                                                     for i, m in enumerate(shape)],
             "pol": pol, "use_h": False, "eps_r": rng.choice([1.0, 2.25]), "mu_r": 1.0, "profile": rng.choice(["cw", "pulse"]),
-            "amp": rng.uniform(0.5, 2.0), "complex": False, "nsteps": rng.randint(6, 10), "seed": rng.np_seed(), "line": True}
+            "amp": rng.uniform(0.5, 2.0), "complex": False, "nsteps": rng.randint(6, 10), "seed": rng.np_seed(), "line": True,
+            "phase": gen_phase(rng)}
 
 
 def k_line(ctx, c):
@@ -415,7 +446,8 @@ def k_line(ctx, c):
 MEDIA = [(1.0, 1.0), (2.25, 1.0), (1.5, 2.0), (1.0, 1.5), (3.0, 1.5)]     # homogeneous backgrounds (eps_r, mu_r)
 
 
-def gen_oracle(rng, axis, direction, profile, kind="uniform", medium=None, delayed=False, use_h=None, pol=None):
+def gen_oracle(rng, axis, direction, profile, kind="uniform", medium=None, delayed=False, use_h=None, pol=None,
+               dispersive=None, phase=None):
     th = rng.uniform(0.5, 1.1) * rng.choice([1.0, -1.0])      # diagonal polarisation
     own = [0.0, 0.0, 0.0]
     own[(axis + 1) % 3], own[(axis + 2) % 3] = float(np.cos(th)), float(np.sin(th))
@@ -427,9 +459,16 @@ def gen_oracle(rng, axis, direction, profile, kind="uniform", medium=None, delay
     c = {"axis": axis, "direction": direction, "kind": kind, "profile": profile, "pol": pol, "use_h": use_h,
          "amp": 1.0, "widths": None, "along": "pml", "complex": False,
          "cells_per_wavelength": cpw, "oracle": True, "seed": rng.np_seed()}
+    own_phase = gen_phase(rng)
+    c["phase"] = own_phase if phase is None else float(phase)
+    c["dispersive"] = dispersive
     # dielectric AND magnetic homogeneous backgrounds: the injected E/H ratio must be the impedance sqrt(mu/eps) of the
     # medium, which differs from the dielectric-only value exactly when mu_r != 1
     c["eps_r"], c["mu_r"] = medium if medium is not None else rng.choice(MEDIA)
+    if dispersive == "background" and c["eps_r"] < 2.0:
+        # coupled field/polarisation stability at courant_factor 0.99 needs courant^2/(eps_inf mu) + pole term < 1:
+        # 1.02 for eps_inf = 1 (placement warns), 0.45 for eps_inf = 2.25
+        c["eps_r"] = 2.25
     if delayed:
         # non-default OnOffSwitch: the source starts after 3 carrier periods (path through adjust_time_step_by_on_off)
         c["switch"], c["start_periods"] = "after_periods", 3.0
@@ -440,13 +479,17 @@ def gen_oracle(rng, axis, direction, profile, kind="uniform", medium=None, delay
     return c
 
 
+LAST = {}
+
+
 def oracle_ratio(c):
     """time-integrated power through the plane behind the source / through the plane in front of it"""
     j = Y.J()
     ax = c["axis"]
     cpw = c["cells_per_wavelength"]
     spacing = 50e-9
-    n_med = np.sqrt(c["eps_r"] * c["mu_r"])
+    eps_eff = c["eps_r"] + (LORENTZ_DELTA / (1.0 - 1.0 / LORENTZ_RATIO ** 2) if c.get("dispersive") == "background" else 0.0)
+    n_med = np.sqrt(eps_eff * c["mu_r"])
     wavelength = cpw * spacing * n_med                      # vacuum wavelength such that the medium sees cpw cells
     pml, gap = 10, c.get("gap", 5)
     n_ax = 2 * pml + 4 * gap + 1
@@ -463,6 +506,7 @@ def oracle_ratio(c):
     shape[(ax + 1) % 3], shape[(ax + 2) % 3] = tr
     k0 = pml + 2 * gap
     cc = dict(c, shape=shape, k0=k0, pulse_width_factor=4)
+    cc["slab_pos"] = (k0 + gap + 2) if c["direction"] == "+" else (k0 - gap - 4)      # beyond the front plane
     if c["kind"] == "gauss":
         cc["radius_cells"] = c["radius_wl"] * cpw
         cc["transverse"] = "pml"
@@ -474,6 +518,24 @@ def oracle_ratio(c):
     steps = int(((7 if c["profile"] == "cw" else 8) + c.get("start_periods", 0.0)) * period_steps) + 6 * gap
     sc = build_plane_scene(cc, time_steps=steps, detectors=[("front", front, c["direction"]), ("back", back, opp)],
                            pml=pml, spacing=spacing, wavelength=wavelength)
+    LAST.clear()
+    if c.get("dispersive"):
+        # time alignment of the two incident profiles: the precomputed H-side profile (`_temporal_H_filter`, injected into
+        # E) must carry the same carrier phase as the E-side profile evaluated on the fly (injected into H)
+        src = sc.source
+        filt = src._temporal_H_filter
+        LAST["has_filter"] = filt is not None
+        if filt is not None:
+            jnp = j["jnp"]
+            T = int(sc.config.time_steps_total)
+            raw = np.asarray(src.temporal_profile.get_amplitude(time=jnp.arange(T) * float(sc.config.time_step_duration),
+                                                                 period=src.wave_character.get_period(),
+                                                                 phase_shift=float(c["phase"])), dtype=np.float64)
+            filt = np.asarray(filt, dtype=np.float64)
+            LAST["filter_len_ok"] = filt.shape == raw.shape
+            if filt.shape == raw.shape:
+                scale = max(1e-300, float(np.max(np.abs(raw))))
+                LAST["filter_vs_raw"] = float(np.max(np.abs(filt - raw))) / scale
     t, out = j["fdtdx"].run_fdtd(arrays=sc.arrays, objects=sc.objects, config=sc.config, key=j["jax"].random.PRNGKey(0),
                                  show_progress=False)
     pf = np.asarray(out.detector_states["front"]["poynting_flux"]).reshape(-1)
@@ -498,11 +560,22 @@ def oracle_case(ctx, c):
     bwd, fwd, steps = oracle_ratio(c)
     limit = 1e-3 if c["kind"] == "uniform" else 0.1
     ratio = abs(bwd) / fwd if fwd > 0 else float("inf")
+    if c.get("dispersive"):
+        # K of the E-side vs H-side profile: with the source in non-dispersive cells the H-side filter is the identity, so the
+        # stored profile must equal the carrier-phase-shifted raw profile sample by sample; in a dispersive background the
+        # impedance filter G = sqrt(eps(w)/eps(w_c)) is 1 at the carrier, so it stays within a few per cent of it
+        ctx.expect_equal("dispersive arrays allocated: source uses the precomputed H-side profile", c, LAST.get("has_filter"), True)
+        ctx.expect_equal("H-side profile length", c, LAST.get("filter_len_ok"), True)
+        dev = LAST.get("filter_vs_raw", float("inf"))
+        lim = 1e-12 if c["dispersive"] == "elsewhere" else 0.15
+        if not dev <= lim:
+            ctx.mismatch("H-side profile (_temporal_H_filter) vs E-side profile with the carrier phase", c, {"relerr": dev, "tol": lim})
     ctx.extra.setdefault("oracle_ratios", []).append({"axis": c["axis"], "direction": c["direction"], "kind": c["kind"],
                                                       "profile": c["profile"], "eps_r": c["eps_r"], "mu_r": c["mu_r"], "switch": c.get("switch", "default"),
-                                                      "use_h": c["use_h"], "ratio": ratio, "steps": steps})
+                                                      "use_h": c["use_h"], "phase": round(c.get("phase", 0.0), 3),
+                                                      "dispersive": c.get("dispersive"), "ratio": ratio, "steps": steps})
     ctx.case(nontrivial=("oracle", c["axis"], c["direction"], c["profile"], c["kind"]), oracle=c["kind"] + "/" + c["profile"],
-             oracle_medium=f"eps{c['eps_r']}/mu{c['mu_r']}", oracle_switch=c.get("switch", "default"), oracle_pol_given="H" if c["use_h"] else "E",
+             oracle_medium=f"eps{c['eps_r']}/mu{c['mu_r']}", oracle_switch=c.get("switch", "default"), oracle_pol_given="H" if c["use_h"] else "E", oracle_dispersive=str(c.get("dispersive")),
              **{f"oracle_axis{c['axis']}{c['direction']}": True})
     if not (fwd > 0) or not ratio < limit:
         ctx.violation(c, oracle_fails(c) or f"ratio {ratio:.3e}")
@@ -535,6 +608,10 @@ def run(ctx):
             oracle_case(ctx, gen_oracle(rng, a, d, "cw", kind="gauss"))
         for (a, d) in SIX:
             oracle_case(ctx, gen_oracle(rng, a, d, rng.choice(["cw", "pulse"]), delayed=True))
+        for i, (a, d) in enumerate(SIX):
+            for disp in ("background", "elsewhere"):
+                oracle_case(ctx, gen_oracle(rng, a, d, rng.choice(["cw", "pulse"]), medium=rng.choice(MEDIA[:3]), dispersive=disp,
+                                            phase=[np.pi / 2, -np.pi / 2, np.pi, None, None, None][(i + (disp == "elsewhere")) % 6]))
     else:
         (a1, d1), (a2, d2) = order[0], order[1]
         c1 = gen_oracle(rng, a1, d1, "cw", medium=rng.choice(MEDIA[:2]))
@@ -543,6 +620,11 @@ def run(ctx):
         oracle_case(ctx, gen_oracle(rng, a2, d2, "pulse", medium=rng.choice(MEDIA[2:]), use_h=not c1["use_h"]))
         a3, d3 = order[2]
         oracle_case(ctx, gen_oracle(rng, a3, d3, "cw", medium=MEDIA[0], delayed=True))   # switched source
+        # dispersive arrays allocated (Lorentz background the source sits in, or a dispersive slab elsewhere): the source
+        # takes its precomputed H-side profile; carrier phase from the quadrature / inverted / random set
+        a4, d4 = order[3]
+        oracle_case(ctx, gen_oracle(rng, a4, d4, rng.choice(["cw", "pulse"]), medium=MEDIA[0],
+                                    dispersive=rng.choice(["background", "elsewhere"])))
 
 
 def search(ctx, hints):
@@ -561,7 +643,7 @@ def search(ctx, hints):
                 first = h.get("profile", "cw")
                 for prof in (first, "pulse" if first == "cw" else "cw"):
                     o = gen_oracle(rng, h["axis"], h["direction"], prof, medium=med, delayed=sw, use_h=h.get("use_h", False),
-                                   pol=h.get("pol"))
+                                   pol=h.get("pol"), phase=h.get("phase"), dispersive=h.get("dispersive"))
                     o["amp"] = float(h.get("amp", 1.0))
                     todo.append(o)
                 if h.get("kind") == "gauss":      # the 10 % bound is a statement about the carrier wavelength: CW only
@@ -572,11 +654,12 @@ def search(ctx, hints):
         for prof in ("cw", "pulse"):
             todo.append(gen_oracle(rng, a, d, prof, medium=MEDIA[(i + (prof == "pulse")) % len(MEDIA)]))
         todo.append(gen_oracle(rng, a, d, "cw", medium=MEDIA[0], delayed=True))
+        todo.append(gen_oracle(rng, a, d, "cw", medium=MEDIA[0], dispersive=["background", "elsewhere"][i % 2]))
     for (a, d) in SIX[:2]:
         todo.append(gen_oracle(rng, a, d, "cw", kind="gauss"))
     for c in todo:
         key = (c["axis"], c["direction"], c["profile"], c["kind"], c["eps_r"], c["mu_r"], c.get("switch", "default"),
-               c["use_h"])
+               c["use_h"], c.get("dispersive"))
         if key in seen:
             continue
         seen.add(key)
